@@ -10,6 +10,7 @@ import (
 	"strconv"
 	"strings"
 	"sync"
+	"time"
 
 	"github.com/llir/llvm/ir"
 
@@ -38,6 +39,12 @@ type scenario struct {
 	FreshKnown  bool `json:"fresh_known"`
 	// Texts: corpus mode -- path of a JSON list of module texts printed concurrently (see rich.go)
 	Texts string `json:"texts,omitempty"`
+	// Cold: before any sequential print has happened in the process (reference texts included), the N
+	// goroutines print the freshly parsed modules at once; the texts are compared with the sequential
+	// references afterwards.  Package-level state that the first print of a process initialises lazily
+	// (keyword tables, caches) is then initialised under concurrency -- a harness that prints its references
+	// first warms every such table and hides the race for the rest of the process.
+	Cold bool `json:"cold,omitempty"`
 }
 
 // traceRow is one row of printconc_trace.ndjson (see spec/PrintConcTrace.tla).
@@ -64,6 +71,10 @@ type childResult struct {
 	Panics      []string   `json:"panics"`
 	Rows        []traceRow `json:"rows"`
 	SetIDs      int        `json:"setids"`
+	// Deadlock is set when the printers of a round stopped making progress and every one that had not
+	// returned was parked in a mutex acquisition at two samples five seconds apart: no goroutine that could
+	// release a lock is runnable, so no call will ever return ("every call returns" is part of C13).
+	Deadlock string `json:"deadlock,omitempty"`
 }
 
 // --- entry points -------------------------------------------------------------
@@ -378,7 +389,15 @@ func childMain(path string) {
 			st.bufs[id] = bufs[i]
 		}
 		close(start) // the barrier: happens-before edge from the setup to every worker
-		wg.Wait()
+		if dl := waitOrDeadlock(&wg, sc.N); dl != "" {
+			res.Deadlock = fmt.Sprintf("round %d: %s", r, dl)
+			out, _ := json.Marshal(res)
+			if err := os.WriteFile(sc.Out, out, 0o644); err != nil {
+				fmt.Println("child: cannot write result:", err)
+				os.Exit(3)
+			}
+			os.Exit(0) // the parked goroutines die with the process
+		}
 		hs = nil
 		res.Calls += sc.N * sc.K
 		if r < sc.TraceRounds {
@@ -412,6 +431,47 @@ func childMain(path string) {
 				}
 				res.Rows = append(res.Rows, *row)
 			}
+			// lock-order pairs: mutex h was held by a goroutine when it acquired mutex a (program order of each
+			// goroutine's own events; 0 = module mutex, i+1 = mutex of function i).  PrintConcTrace requires the
+			// relation to be acyclic (PrintLocks.tla: a cycle in the lock order is a reachable deadlock).
+			orderRow := traceRow{Sc: fmt.Sprintf("%s#%d", sc.Name, r), Mu: "order", Numbered: numbered}
+			muIdx := func(name string) int64 {
+				if name == "m" {
+					return 0
+				}
+				n, _ := strconv.Atoi(name[1:])
+				return int64(n + 1)
+			}
+			seenPair := map[[2]int64]bool{}
+			for _, gb := range append([]*gbuf{main}, bufs...) {
+				var held []*muInfo
+				for _, e := range gb.evs {
+					if e.mu == nil {
+						continue
+					}
+					switch e.ev {
+					case 0:
+						for _, h := range held {
+							pr := [2]int64{muIdx(h.name), muIdx(e.mu.name)}
+							if !seenPair[pr] {
+								seenPair[pr] = true
+								orderRow.Evs = append(orderRow.Evs, [5]int64{gb.g, pr[0], pr[1], 0, 0})
+							}
+						}
+						held = append(held, e.mu)
+					case 2:
+						for i := len(held) - 1; i >= 0; i-- {
+							if held[i] == e.mu {
+								held = append(held[:i], held[i+1:]...)
+								break
+							}
+						}
+					}
+				}
+			}
+			if len(orderRow.Evs) > 0 {
+				res.Rows = append(res.Rows, orderRow)
+			}
 		}
 	}
 	out, _ := json.Marshal(res)
@@ -420,6 +480,59 @@ func childMain(path string) {
 		os.Exit(3)
 	}
 	os.Exit(0)
+}
+
+// waitOrDeadlock waits for the workers of one round.  It returns "" when they all returned, and a
+// description when they provably never will: at two consecutive samples, five seconds apart, the same
+// set of worker goroutines is unfinished and EVERY one of them is parked in a mutex acquisition
+// (goroutine state sync.Mutex.Lock / sync.RWMutex.* / semacquire).  A goroutine that holds a lock and
+// could still release it would be runnable, running, or parked elsewhere, so a slow machine cannot
+// produce this picture; only the printers touch these mutexes.
+func waitOrDeadlock(wg *sync.WaitGroup, n int) string {
+	done := make(chan struct{})
+	go func() { wg.Wait(); close(done) }()
+	prev := ""
+	for {
+		select {
+		case <-done:
+			return ""
+		case <-time.After(5 * time.Second):
+		}
+		buf := make([]byte, 1<<22)
+		buf = buf[:runtime.Stack(buf, true)]
+		var parked, other []string
+		for _, g := range strings.Split(string(buf), "\n\n") {
+			if !(strings.Contains(g, "c13.childMain.func") || strings.Contains(g, "c13.childCorpus.func")) || strings.Contains(g, "waitOrDeadlock") {
+				continue // not a worker of the round
+			}
+			head := g
+			if i := strings.IndexByte(g, '\n'); i >= 0 {
+				head = g[:i]
+			}
+			if strings.Contains(head, "sync.Mutex.Lock") || strings.Contains(head, "sync.RWMutex") || strings.Contains(head, "semacquire") {
+				parked = append(parked, head[:strings.IndexByte(head, '[')])
+			} else {
+				other = append(other, head)
+			}
+		}
+		sort.Strings(parked)
+		cur := strings.Join(parked, ",")
+		if len(other) == 0 && len(parked) >= 2 && cur == prev {
+			return fmt.Sprintf("%d of %d printers never return: each is parked in a mutex acquisition and none is runnable (lock cycle); stacks:\n%s", len(parked), n, mbtTrunc(string(buf), 6000))
+		}
+		if len(other) == 0 {
+			prev = cur
+		} else {
+			prev = ""
+		}
+	}
+}
+
+func mbtTrunc(s string, n int) string {
+	if len(s) > n {
+		return s[:n] + "…"
+	}
+	return s
 }
 
 func sortBySeq(evs [][5]int64) {
